@@ -137,7 +137,7 @@ func (pConn *PFCPConn) handlePFCPMsg(buf []byte) (released bool) {
 		return
 	}
 
-	nodeID := pConn.nodeID.remote
+	nodeID := pConn.remoteNodeID()
 	// Check for errors in handling the message
 	if err != nil {
 		m.Finish(nodeID, "Failure")
@@ -158,7 +158,7 @@ func (pConn *PFCPConn) handlePFCPMsg(buf []byte) (released bool) {
 
 func (pConn *PFCPConn) SendPFCPMsg(msg message.Message) {
 	addr := pConn.RemoteAddr().String()
-	nodeID := pConn.nodeID.remote
+	nodeID := pConn.remoteNodeID()
 	msgType := msg.MessageTypeName()
 
 	m := metrics.NewMessage(msgType, "Outgoing")
